@@ -42,7 +42,7 @@ def main():
         })
     na = [{"property_id": p, "reason": "not yet built (work in progress, see DESIGN.md §10 order of work): no check is registered and nothing is claimed"}
           for p in props if p not in E]
-    hooks_commits = []
+    hooks_commits = ["957a001 hook: guarded parser instrumentation for the C09 correspondence check (cfg mech_lang_mech_verif); add-only, in src/syntax/src/parser.rs and src/syntax/src/mechdown.rs"]
     m = {
         "version": 1,
         "setup_cmd": "./setup.sh",
